@@ -1,5 +1,6 @@
 """C03 - silence tolerance: gaps inside an event never exceed the maximum."""
 
+from .. import tok
 from ..models import inv
 from . import tokcommon as T
 
@@ -34,6 +35,9 @@ def check_case(ctx, v, params, kind, delivery, origin):
     strict, drop = T.flags(params)
     # what the monitor saw: tokens with inner silence, silence carried across a cut
     for k, (_, s, e) in enumerate(tokens):
+        if not (isinstance(s, int) and isinstance(e, int) and 0 <= s <= e < len(v)):
+            ctx.count("tokens_with_indices_outside_the_stream")  # C01's business; the validity oracle below does not need the indices
+            continue
         vv = v[s : e + 1]
         if 0 in vv:
             ctx.count("tokens_with_inner_or_trailing_silence")
@@ -43,7 +47,15 @@ def check_case(ctx, v, params, kind, delivery, origin):
                 ctx.count("silence_run_straddling_a_cut")
     if drop:
         ctx.count("drop_mode_tokens", len(tokens))
-    for key, detail in inv.c03(v, tokens, max_len, max_sil, drop, init_min, ims):
+    # the observer re-applies the validator to the frames the token actually carries (not to the stream at the token's indices:
+    # wrong indices are C01's business and must not blind this check)
+    _, validator = tok.FRAME_KINDS[kind](())
+    is_valid = validator.is_valid if hasattr(validator, "is_valid") else validator
+
+    def validity_of(token):
+        return [1 if is_valid(f) else 0 for f in token[0]]
+
+    for key, detail in inv.c03(v, tokens, max_len, max_sil, drop, init_min, ims, validity_of=validity_of):
         detail["case"] = T.case_of(v, params, kind, delivery)
         detail["tokens"] = [(s, e) for _, s, e in tokens][:20]
         ctx.violation(key, detail)
